@@ -353,7 +353,24 @@ def rule_boundary_extent(ctx):
     ctx.covered('R15.8', 'boundary check loops cover the real particles only', n, floor=3, samples=samples)
 
 
+def rule_axis_conditions(ctx, rule='R15.9', files=('tree.c', 'boundary.c', 'collision.c', 'gravity.c', 'particle.c', 'rebound.c', 'communication_mpi.c'), floor=2):
+    """R15.9: geometric membership tests (particle inside cell, inside box, ghost box overlap) are one comparison per axis joined
+    by || or &&: each such comparison occurs exactly once for x, y and z."""
+    from . import x1
+    n = 0
+    for cfile in files:
+        tu = cfront.load_tu(cfile)
+        for fname in sorted(tu.funcs):
+            fn = tu.func(fname)
+            if cfront.body(fn) is None:
+                continue
+            n += x1.check_condition_triples(cfile, fn, ctx.report, rule)
+    ctx.covered(rule, 'per-axis comparisons inside || / && chains occur once for each of x, y, z (%s)' % ', '.join(files), n, floor=floor)
+
+
 def run(ctx):
+    rule_axis_conditions(ctx)
+    serial.rule_R05_2(ctx)                 # the box and root-grid geometry of a restored simulation: each descriptor row designates the member it names
     rule_boundary_extent(ctx)
     rule_wrap(ctx)
     rule_ghostbox(ctx)
